@@ -39,6 +39,11 @@ CLAIMS = {
             "case-insensitive match; derivative matcher = relational semantics = textbook language), "
             "C07_services_decide_on_resolved_account (signer, account and wallet management, creation); correspondence of Check() on "
             "grammar-generated permission configurations, of signer requests by name and by key, and of the managers' results", "5 C07"),
+    "C08": ("Theorems C08_single_requests, C08_batches_aligned (exactly one entry per request; the signature at position i is by the account "
+            "request i resolves to over exactly request i's fields, for every batch length and fault schedule), C08_signature_verifies (for "
+            "any scheme with verify(sign)=true), C08_scatter_fills_every_index (every n, p); the signing root is computed by the model "
+            "(SSZ over SHA-256 on primitive integers) and compared with the root under which the real BLS library verifies the returned "
+            "signature for the addressed account; batches over sizes x GOMAXPROCS with every position verified", "5 C08"),
     "C18": ("Theorems C18_listing_sound_and_complete (membership in the answer <=> requested known wallet, account present in base or "
             "overlay, name matches, Access permitted), C18_wallet_accounts, C18_created_account_listed; correspondence of the real lister "
             "(service and gRPC handler) as a multiset, before and after dynamic account creation; soundness and completeness also "
